@@ -20,7 +20,9 @@ EXPLAIN = ("Interprocedural exception-escape analysis rooted at ethernet.parse o
            "through constructors, parse_next and protocol dispatch: raising primitives (struct reads, constant indices, explicit "
            "raises, wire-value asserts, class-vs-module attribute misuse) must be guarded by dominating length tests (format "
            "arithmetic) or caught by a try on every chain; slice widths equal calcsize; parse/hdr struct codes agree; __str__ "
-           "contained; parser loops progress. Decides these necessary conditions, not totality of parsing.")
+           "contained; parser loops progress; output side (c15b E1-E8): own __str__ methods, parser/serialiser tuple arity, attributes hdr() reads after an early "
+           "return of parse(), checksum asserts, RecursionError containment of self-nesting headers, TLV value slices, remaining-length accounting. "
+           "Decides these necessary conditions, not totality of parsing.")
 PK = 'pox.lib.packet'
 
 class Site(object):
